@@ -12,7 +12,7 @@ PREP = {"e2e.C01.roundtrip": "w.", "e2e.C07.corrupt": "w."}
 
 # ops whose implementation observation carries extra statistics after the first word (e.g. "same ok",
 # "same conferr"): only the first word is compared with the model's answer
-FIRST_WORD_FNS = {"c13.dry", "c03.reject", "c10.schema", "c08.twin", "c08.known", "c15.versions", "c15.known", "c02.closure", "c02.known", "c19.origin", "c09.doc", "c09.known"}
+FIRST_WORD_FNS = {"c19.yaml", "c13.dry", "c03.reject", "c10.schema", "c08.twin", "c08.known", "c15.versions", "c15.known", "c02.closure", "c02.known", "c19.origin", "c09.doc", "c09.known"}
 
 # property module -> (modules the script imports, script run with `lake env lean --run`): prints `<name>=true|false`
 PRECHECK = {
@@ -91,9 +91,10 @@ PROPS = {
     },
     "C19": {
         "lean_modules": ["TableauVerif.Props.C19"],
-        "oracles": ["c19.origin"],
+        "oracles": ["c19.origin", "c19.yaml"],
         "streams": [
             ("e2e.C19.origin", 240, 12000, 8),
+            ("e2e.C19.yaml", 200, 8000, 8),
         ],
         "assumptions": [
             "regenerated tie: Generated/CallSites.lean (the call sites of ParseMessage, GetMergerImporters, GetScatterImporters, RewriteSubdir, importer.New, append and the SheetInfo literals in confgen's conversion path and in load.loadOrigin) is extracted from /repo on every run and pinned by pin_callsites",
@@ -144,13 +145,14 @@ PROPS = {
     },
     "C17": {
         "lean_modules": ["TableauVerif.Props.C17"],
-        "oracles": ["c17.cls", "c17.fuzz"],
+        "oracles": ["c17.cls", "c17.fuzz", "c17.docfuzz"],
         "streams": [
             ("corr.types.match", 60000, 600000),
             ("corr.types.misc", 9000, 200000),
             ("spec.C17.classify", 8000, 300000),
             ("corr.protogen.parseHeader", 4000, 200000),
             ("e2e.C17.nopanic", 400, 20000, 8),
+            ("e2e.C17.docfuzz", 400, 20000, 8),
         ],
         "assumptions": [
             "modelled: the six recognisers of internal/types (direct recognisers of the regular expressions, tied to Go's regexp by exhaustive token sequences up to length 3/4 plus random ones), BelongToFirstElement, ParseTypeDescriptor, strcase.ToSnake without acronyms, and protogen's default-mode header parser (parseField / parseMapField / parseListField / parseStructField / parseBasicField / layout look-ahead / virtual type cells / nested naming) over the key:value vocabulary of field properties",
